@@ -29,8 +29,10 @@ type C01Dec struct {
 	Target   string  `json:"target"` // any | map | typed | struct
 	DropMask uint32  `json:"drop_mask"`
 	Signed   bool    `json:"signed_bytes"`
-	Trailing []byte  `json:"trailing"`
-	Plain    bool    `json:"plain_reader"`
+	// NamedBytes (unless Signed): byte arrays go into a named byte-slice type (1 MethBytes, 2 []Nibble)
+	NamedBytes int    `json:"named_bytes,omitempty"`
+	Trailing   []byte `json:"trailing"`
+	Plain      bool   `json:"plain_reader"`
 	// Repeat > 0: the stream holds the document Repeat+1 times and ONE Decoder reads them one after
 	// the other into fresh destinations (state must not leak from one document to the next)
 	Repeat int `json:"repeat,omitempty"`
@@ -49,10 +51,10 @@ func c01DecodeTarget(c C01Dec) (td *gm.TD, vd *gm.VD, dropped int) {
 		a := gm.AnyVD(c.Tree)
 		return &gm.TD{K: gm.KAny}, a, 0
 	case "typed":
-		return gm.TypedOf(c.Tree, gm.TypedOpts{StructDepth: 0, SignedBytes: c.Signed})
+		return gm.TypedOf(c.Tree, gm.TypedOpts{StructDepth: 0, SignedBytes: c.Signed, NamedBytes: c.NamedBytes})
 	default:
 		i := 0
-		return gm.TypedOf(c.Tree, gm.TypedOpts{StructDepth: 3, SignedBytes: c.Signed, Drop: func(string) bool {
+		return gm.TypedOf(c.Tree, gm.TypedOpts{StructDepth: 3, SignedBytes: c.Signed, NamedBytes: c.NamedBytes, Drop: func(string) bool {
 			i++
 			return c.DropMask&(1<<(uint(i)%32)) != 0
 		}})
@@ -174,6 +176,9 @@ var c01Dec = pbt.Register(pbt.Prop[C01Dec]{
 		c.Target = rapid.SampledFrom([]string{"any", "map", "typed", "struct", "struct"}).Draw(t, "target")
 		c.DropMask = rapid.SampledFrom([]uint32{0, 0, 0xAAAAAAAA, 0xFFFFFFFF, 0x11111111}).Draw(t, "dropclass") & rapid.Uint32().Draw(t, "dropbits")
 		c.Signed = rapid.Bool().Draw(t, "signed")
+		if !c.Signed {
+			c.NamedBytes = rapid.SampledFrom([]int{0, 0, 1, 2}).Draw(t, "namedbytes")
+		}
 		if rapid.Bool().Draw(t, "hastrailing") {
 			c.Trailing = rapid.SliceOfN(rapid.Byte(), 1, 16).Draw(t, "trailing")
 		}
@@ -252,13 +257,20 @@ func goEncode(c GoCase) goEncoded {
 	var buf bytes.Buffer
 	res := goEncoded{val: v}
 	noiseNBT()
+	before := 0
 	res.panicked, res.stack = pbt.Try(func() {
 		e := nbt.NewEncoder(&buf)
 		e.NetworkFormat(c.Network)
+		if (len(c.Name)+len(c.VD.Elems))%3 == 1 {
+			// the Encoder has a past: an Encode that failed part-way through another value (the caller got the
+			// error and goes on). What the Encode under test adds to the stream is its own document.
+			_ = e.Encode(c02Unencodable{A: 7, S: "stale-stale-stale", L: []int32{1, 2, 3}, Bad: make(chan int), Z: 9}, "failing")
+			before = buf.Len()
+		}
 		res.err = e.Encode(arg, string(c.Name))
 	})
 	noiseNBT()
-	res.out = buf.Bytes()
+	res.out = buf.Bytes()[before:]
 	return res
 }
 
